@@ -11,6 +11,28 @@ mod mani_run;
 mod setsum_replay;
 mod damage;
 
+/// No single allocation above the limit: a reader that sizes a buffer from damaged bytes must not take the
+/// machine down; the request fails, Rust aborts, and the abort is reported with the case in flight (C09).
+struct Guard;
+static ALLOC_LIMIT: std::sync::atomic::AtomicUsize = std::sync::atomic::AtomicUsize::new(4 << 30);
+unsafe impl std::alloc::GlobalAlloc for Guard {
+    unsafe fn alloc(&self, l: std::alloc::Layout) -> *mut u8 {
+        if l.size() > ALLOC_LIMIT.load(std::sync::atomic::Ordering::Relaxed) { return std::ptr::null_mut(); }
+        unsafe { std::alloc::System.alloc(l) }
+    }
+    unsafe fn alloc_zeroed(&self, l: std::alloc::Layout) -> *mut u8 {
+        if l.size() > ALLOC_LIMIT.load(std::sync::atomic::Ordering::Relaxed) { return std::ptr::null_mut(); }
+        unsafe { std::alloc::System.alloc_zeroed(l) }
+    }
+    unsafe fn dealloc(&self, p: *mut u8, l: std::alloc::Layout) { unsafe { std::alloc::System.dealloc(p, l) } }
+    unsafe fn realloc(&self, p: *mut u8, l: std::alloc::Layout, n: usize) -> *mut u8 {
+        if n > ALLOC_LIMIT.load(std::sync::atomic::Ordering::Relaxed) { return std::ptr::null_mut(); }
+        unsafe { std::alloc::System.realloc(p, l, n) }
+    }
+}
+#[global_allocator]
+static GLOBAL: Guard = Guard;
+
 fn main() {
     let args: Vec<String> = std::env::args().collect();
     if args.len() < 2 {
